@@ -169,6 +169,9 @@ def run_tlc(module, cfg_path, workers=16, env=None, timeout=3600, simulate=None,
             m = re.match(r'^Error: Action property (\S+) is violated', line)
             if m:
                 res.violation = m.group(1)
+            m = re.match(r'^Error: Action property line \d+, col \d+ to line \d+, col \d+ of module (\w+) is violated', line)
+            if m:
+                res.violation = 'step not allowed by ' + m.group(1) + ' (refinement)'
             if line.startswith('Error: Temporal properties were violated'):
                 res.violation = 'temporal'
             m = re.match(r'^<(\w+) line \d+, col \d+ to line \d+, col \d+ of module (\w+)>: (\d+):(\d+)', line)
@@ -194,6 +197,24 @@ def run_tlc(module, cfg_path, workers=16, env=None, timeout=3600, simulate=None,
     if not ok_end or proc.returncode != 0:
         raise TlcFailure('TLC failed on %s (%s), exit %s:\n%s' % (module, cfg_path, proc.returncode, tail(res.log)))
     return res
+
+
+def run_apalache(module, init, next_, inv, length, timeout=900):
+    """apalache-mc check; returns 'NoError' / 'Error' (a counterexample exists). Anything else is a machinery failure."""
+    out = new_scratch('apalache')
+    cmd = ['apalache-mc', 'check', '--init=' + init, '--next=' + next_, '--inv=' + inv, '--length=%d' % length, '--out-dir=' + out, module + '.tla']
+    try:
+        p = subprocess.run(cmd, cwd=SPEC_DIR, stdout=subprocess.PIPE, stderr=subprocess.STDOUT, universal_newlines=True, timeout=timeout)
+    except subprocess.TimeoutExpired:
+        raise TlcFailure('apalache-mc timed out on %s' % module)
+    except OSError as e:
+        raise TlcFailure('apalache-mc cannot be started: %s' % e)
+    finally:
+        shutil.rmtree(out, ignore_errors=True)
+    m = re.search(r'The outcome is: (\w+)', p.stdout)
+    if not m or m.group(1) not in ('NoError', 'Error'):
+        raise TlcFailure('apalache-mc failed on %s:\n%s' % (module, '\n'.join(p.stdout.split('\n')[-25:])))
+    return m.group(1)
 
 
 def tail(s, n=40):
